@@ -57,7 +57,7 @@ import (
 const cellBase = 1 << 16 // state keys of captured cells: cellBase + index of the cell in MakeClosure.Bindings
 
 func cellKey(i int) int    { return cellBase + i }
-func isCellKey(k int) bool { return k >= cellBase && k < memBase }
+func isCellKey(k int) bool { return k >= cellBase && k < globBase }
 
 type closureInfo struct {
 	parent  *ssa.Function
@@ -505,6 +505,9 @@ func (c *fnCtx) cellIsView(k int) bool {
 
 // keyGoName / keyGoType: a receiver field or a captured variable, for messages and types.
 func (c *fnCtx) keyGoName(k int) string {
+	if isStructKey(k) || isGlobKey(k) {
+		return c.fieldParam[k]
+	}
 	if isCellKey(k) {
 		return "captured variable " + cellGoName(c.clo.cells[k-cellBase])
 	}
@@ -512,6 +515,12 @@ func (c *fnCtx) keyGoName(k int) string {
 }
 
 func (c *fnCtx) keyGoType(k int) types.Type {
+	if isStructKey(k) {
+		return c.freshT.Underlying().(*types.Struct).Field(k - structBase).Type()
+	}
+	if isGlobKey(k) {
+		return globElemType(c.globOf(k))
+	}
 	if isCellKey(k) {
 		return c.cellElem(k)
 	}
